@@ -261,3 +261,321 @@ Proof.
   - rewrite nth_overflow in He by exact Hl. contradiction.
   - apply nth_In. exact Hl.
 Qed.
+
+(** ** Events, keys, layouts *)
+
+Lemma event_eqb_eq : forall a b, event_eqb a b = true <-> a = b.
+Proof.
+  intros [k1 t1 p1 i1 c1 v1] [k2 t2 p2 i2 c2 v2]. unfold event_eqb; cbn [e_k e_ts e_pt e_id e_ctx e_v].
+  rewrite !andb_true_iff, !N.eqb_eq. split.
+  - intros [[[[[-> ->] ->] ->] ->] ->]. reflexivity.
+  - intros H. inversion H. tauto.
+Qed.
+
+Lemma in_events_In : forall e l, in_events e l = true <-> In e l.
+Proof.
+  intros e l. unfold in_events. rewrite existsb_exists. split.
+  - intros [x [Hx E]]. apply event_eqb_eq in E. subst. exact Hx.
+  - intros H. exists e. split; [exact H|apply event_eqb_eq; reflexivity].
+Qed.
+
+Definition layout_ok (l : layout) : Prop :=
+  dup_content l = false /\ mtime_bad l = false /\ zero_id l = false.
+
+Lemma layout_ok_nodup : forall l, layout_ok l -> NoDup (content l).
+Proof.
+  intros l [H _]. unfold dup_content in H. apply orb_false_iff in H. destruct H as [H _].
+  apply negb_false_iff in H. apply nodupN_NoDup in H. eapply NoDup_map_inv. exact H.
+Qed.
+
+Lemma layout_ok_nodup_keys : forall l, layout_ok l -> NoDup (map e_k (content l)).
+Proof.
+  intros l [H _]. unfold dup_content in H. apply orb_false_iff in H. destruct H as [H _].
+  apply negb_false_iff in H. apply nodupN_NoDup in H. exact H.
+Qed.
+
+Lemma layout_ok_pos : forall l e, layout_ok l -> In e (content l) -> mlt (0, 0) (ekey e) = true.
+Proof.
+  intros l e [_ [_ H]] Hin. unfold zero_id in H.
+  assert (X : (e_id e =? 0) = false).
+  { destruct (e_id e =? 0) eqn:E; [|reflexivity]. exfalso.
+    assert (Y : existsb (fun e => e_id e =? 0) (content l) = true) by (apply existsb_exists; exists e; auto).
+    congruence. }
+  apply mlt_spec. unfold ekey; cbn [fst snd]. lia.
+Qed.
+
+(** ** The invariant *)
+
+Definition core_q (q : query) : Prop := q_tf q = TCore /\ q_limit q = None.
+
+Definition below (q : query) (m : mark) (e : event) : bool := matches q e && mle (ekey e) m.
+Definition above (q : query) (m : mark) (e : event) : bool := matches q e && mlt m (ekey e).
+
+(** stored rows = the matching events at or below the mark *)
+Definition entry_inv (l : layout) (en : entry) : Prop :=
+  core_q (n_q en) /\
+  Permutation (concat (n_frames en)) (filter (below (n_q en) (frames_mark (n_frames en))) (content l)).
+
+Definition Inv (st : state) : Prop :=
+  layout_ok (st_layout st) /\
+  forall name en, lookup name (st_entries st) = Some en -> entry_inv (st_layout st) en.
+
+Lemma sel_split : forall q m l,
+  Permutation (sel q l) (filter (below q m) (content l) ++ filter (above q m) (content l)).
+Proof.
+  intros q m l. unfold sel.
+  eapply perm_trans; [apply (filter_split_perm (fun e => mle (ekey e) m))|].
+  rewrite !filter_filter_and. apply Permutation_app; apply Permutation_refl'; apply filter_ext; intros e;
+    unfold below, above, mle; [reflexivity|rewrite negb_involutive; reflexivity].
+Qed.
+
+(** the delta query on the core timestamp: SINCE raised to the mark and the watermark filter together
+    select the matching events above the mark *)
+Lemma delta_core : forall q m e, q_tf q = TCore ->
+  matches (delta_query q m) e && wm_pass q m e = above q m e.
+Proof.
+  intros q m e Hc. unfold above, wm_pass, delta_query, tfval. rewrite Hc.
+  destruct (mark_zero m) eqn:Z; [reflexivity|].
+  unfold matches, tfval; cbn [q_ctx q_where q_since q_tf]. rewrite Hc. fold (ekey e).
+  destruct (mlt m (ekey e)) eqn:L; [|rewrite !andb_false_r; reflexivity].
+  rewrite !andb_true_r. f_equal.
+  apply mlt_spec in L. unfold ekey in L; cbn [fst snd] in L.
+  destruct (q_since q) as [s|].
+  - destruct (s <? fst m) eqn:E; [|reflexivity]. lia.
+  - lia.
+Qed.
+
+Lemma delta_since_ge : forall q m e, q_tf q = TCore ->
+  matches (delta_query q m) e = true -> fst m <= e_ts e.
+Proof.
+  intros q m e Hc. unfold delta_query. destruct (mark_zero m) eqn:Z.
+  - apply mark_zero_spec in Z. subst. cbn [fst]. lia.
+  - unfold matches, tfval; cbn [q_ctx q_where q_since q_tf]. rewrite Hc.
+    rewrite !andb_true_iff. intros [_ H]. destruct (q_since q) as [s|].
+    + destruct (s <? fst m) eqn:E; lia.
+    + lia.
+Qed.
+
+Lemma delta_rows : forall q fs l, q_tf q = TCore -> mtime_bad l = false ->
+  let m := frames_mark fs in
+  concat (map (show_filter q m) (sources (Some (fst m)) (delta_query q m) l))
+  = filter (above q m) (content l).
+Proof.
+  intros q fs l Hc Hm m. unfold show_filter, wm_enabled. rewrite Hc.
+  rewrite <- filter_concat. rewrite concat_sources_guard; [|exact Hm|intros e; apply delta_since_ge; exact Hc].
+  rewrite filter_filter_and. apply filter_ext. intros e. apply delta_core. exact Hc.
+Qed.
+
+Lemma last_app_cons : forall {A} (l : list A) x r d, last (l ++ x :: r) d = last (x :: r) d.
+Proof.
+  intros A l x r d. induction l as [|y l IH]; [reflexivity|].
+  cbn [app]. change (last (y :: (l ++ x :: r)) d) with (match l ++ x :: r with [] => y | _ => last (l ++ x :: r) d end).
+  destruct (l ++ x :: r) eqn:E; [destruct l; discriminate|]. exact IH.
+Qed.
+
+Lemma frames_mark_last : forall fs, fs <> [] -> frames_mark fs = frame_mark (last fs []).
+Proof. intros [|x r] H; [contradiction|reflexivity]. Qed.
+
+Lemma frames_mark_app : forall fs nf, nf <> [] -> frames_mark (fs ++ nf) = frames_mark nf.
+Proof.
+  intros fs nf H. unfold frames_mark.
+  destruct (fs ++ nf) eqn:E; [apply app_eq_nil in E; destruct E; contradiction|].
+  rewrite <- E. destruct nf as [|x r]; [contradiction|]. rewrite last_app_cons. reflexivity.
+Qed.
+
+Lemma last_In : forall {A} (l : list A) d, l <> [] -> In (last l d) l.
+Proof.
+  intros A l d. induction l as [|x l IH]; [contradiction|]. intros _.
+  destruct l as [|y r]; [left; reflexivity|]. right. apply IH. discriminate.
+Qed.
+
+Lemma lookup_app_none : forall name es n en,
+  lookup name es = None -> lookup n (es ++ [(name, en)]) = if name =? n then Some en else lookup n es.
+Proof.
+  intros name es n en. induction es as [|[a b] r IH]; cbn [lookup app]; intros H.
+  - reflexivity.
+  - destruct (a =? name) eqn:E1; [discriminate|]. specialize (IH H).
+    destruct (a =? n) eqn:E2.
+    + apply N.eqb_eq in E2. subst. rewrite N.eqb_sym, E1. reflexivity.
+    + exact IH.
+Qed.
+
+Lemma lookup_update : forall name en es n,
+  lookup n (update name en es) = if n =? name then (match lookup name es with Some _ => Some en | None => None end) else lookup n es.
+Proof.
+  intros name en es n. induction es as [|[a b] r IH]; cbn [lookup update].
+  - destruct (n =? name); reflexivity.
+  - destruct (a =? name) eqn:E1; cbn [lookup].
+    + apply N.eqb_eq in E1. subst. destruct (name =? n) eqn:E2.
+      * rewrite N.eqb_sym, E2. reflexivity.
+      * rewrite N.eqb_sym, E2. reflexivity.
+    + destruct (a =? n) eqn:E2.
+      * apply N.eqb_eq in E2. subst. rewrite E1. reflexivity.
+      * exact IH.
+Qed.
+
+(** ** Steps preserve the invariant *)
+
+Definition good_op (st : state) (o : op) : Prop :=
+  classes_of st o = [] /\
+  match o with OSetLayout l => keeps_events st l = true /\ zero_id l = false | _ => True end.
+
+Inductive reach : state -> Prop :=
+| reach_init : reach init
+| reach_step : forall st o, reach st -> good_op st o -> reach (fst (step st o)).
+
+Lemma if_app_nil : forall {A} (b : bool) (x : A) r, (if b then [x] else []) ++ r = [] -> b = false /\ r = [].
+Proof. intros A [] x r H; [discriminate|split; [reflexivity|exact H]]. Qed.
+
+Lemma below_filter_grow : forall q m l l',
+  NoDup (content l) -> NoDup (content l') ->
+  (forall e, In e (content l) -> In e (content l')) ->
+  (forall e, In e (content l') -> ~ In e (content l) -> below q m e = false) ->
+  Permutation (filter (below q m) (content l)) (filter (below q m) (content l')).
+Proof.
+  intros q m l l' N1 N2 Hsub Hnew. apply NoDup_Permutation; try (apply NoDup_filter; assumption).
+  intros e. rewrite !filter_In. split.
+  - intros [H1 H2]. split; [apply Hsub; exact H1|exact H2].
+  - intros [H1 H2]. split; [|exact H2].
+    destruct (in_events e (content l)) eqn:E; [apply in_events_In; exact E|].
+    exfalso. assert (X : ~ In e (content l)) by (intro Y; apply in_events_In in Y; congruence).
+    rewrite (Hnew e H1 X) in H2. discriminate.
+Qed.
+
+Lemma lookup_In : forall name es en, lookup name es = Some en -> In (name, en) es.
+Proof.
+  intros name es en. induction es as [|[a b] r IH]; cbn [lookup]; [discriminate|].
+  destruct (a =? name) eqn:E.
+  - apply N.eqb_eq in E. intros H. inversion H; subst. left. reflexivity.
+  - intros H. right. apply IH. exact H.
+Qed.
+
+Lemma inv_setlayout : forall st l, Inv st -> good_op st (OSetLayout l) -> Inv (fst (step st (OSetLayout l))).
+Proof.
+  intros st l [Hl Hen] [Hc [Hk Hz]]. cbn [classes_of] in Hc.
+  apply if_app_nil in Hc. destruct Hc as [Hd Hc]. apply if_app_nil in Hc. destruct Hc as [Hm Hc].
+  assert (Hlate : some_late st l = false) by (destruct (some_late st l); [discriminate|reflexivity]).
+  assert (Hl' : layout_ok l) by (split; [exact Hd|split; [exact Hm|exact Hz]]).
+  cbn [step fst st_layout st_entries]. split; [exact Hl'|].
+  intros name en Hlk. specialize (Hen name en Hlk). destruct Hen as [Hq Hp]. split; [exact Hq|].
+  eapply perm_trans; [exact Hp|]. apply below_filter_grow.
+  - apply layout_ok_nodup. exact Hl.
+  - apply layout_ok_nodup. exact Hl'.
+  - intros e He. unfold keeps_events in Hk. rewrite forallb_forall in Hk. apply in_events_In. apply Hk. exact He.
+  - intros e He Hn. unfold some_late in Hlate.
+    destruct (below (n_q en) (frames_mark (n_frames en)) e) eqn:B; [|reflexivity]. exfalso.
+    assert (X : existsb (fun ne => late_for (snd ne) (content (st_layout st)) (content l)) (st_entries st) = true).
+    { apply existsb_exists. exists (name, en). split.
+      - apply lookup_In. exact Hlk.
+      - cbn [snd]. unfold late_for. apply existsb_exists. exists e. split; [exact He|].
+        unfold below in B. apply andb_true_iff in B. destruct B as [B1 B2]. rewrite B1, B2.
+        destruct (in_events e (content (st_layout st))) eqn:E; [apply in_events_In in E; contradiction|reflexivity]. }
+    congruence.
+Qed.
+
+Lemma inv_remember : forall st name q ch, Inv st -> good_op st (ORemember name q ch) ->
+  Inv (fst (step st (ORemember name q ch))).
+Proof.
+  intros st name q ch [Hl Hen] [Hc _]. cbn [classes_of step] in *.
+  destruct (lookup name (st_entries st)) eqn:Lk; [split; assumption|].
+  destruct (q_tf q) eqn:Htf; [|discriminate]. cbn [app] in Hc.
+  destruct (q_limit q) eqn:Hlim; [discriminate|]. cbn [app] in Hc.
+  destruct (remember_frames q (st_layout st) ch) as [fs|] eqn:R; [|split; assumption].
+  destruct (last_dominates fs) eqn:Ld; [|discriminate].
+  cbn [fst st_layout st_entries]. split; [exact Hl|].
+  intros n en Hlk. cbn [st_entries st_layout] in Hlk |- *. rewrite (lookup_app_none _ _ _ _ Lk) in Hlk.
+  destruct (name =? n); [|apply Hen with n; exact Hlk].
+  inversion Hlk; subst en; clear Hlk. split; [split; assumption|]. cbn [n_q n_frames].
+  unfold remember_frames in R. rewrite Hlim in R.
+  destruct (valid_order (sources None q (st_layout st)) (map fst ch)) eqn:V; [|discriminate].
+  inversion R; subst fs; clear R.
+  eapply perm_trans; [apply valid_order_perm; exact V|].
+  rewrite concat_sources_none. apply Permutation_refl'. apply filter_ext_in.
+  intros e He. unfold below. destruct (matches q e) eqn:M; [|reflexivity]. cbn [andb]. symmetry.
+  unfold last_dominates in Ld. rewrite forallb_forall in Ld. apply Ld.
+  eapply Permutation_in; [apply Permutation_sym; apply valid_order_perm; exact V|].
+  rewrite concat_sources_none. apply filter_In. split; assumption.
+Qed.
+
+(** the heart: one SHOW of an entry satisfying the invariant *)
+Lemma show_step : forall l en ch nf,
+  layout_ok l -> entry_inv l en ->
+  show_frames (n_q en) (n_frames en) l ch = Some nf ->
+  (nonempty nf && negb (last_dominates nf) = false) ->
+  Permutation (show_output (n_q en) (n_frames en) nf) (sel (n_q en) l)
+  /\ entry_inv l (mkEntry (n_q en) (n_frames en ++ nf))
+  /\ Permutation (concat nf) (filter (above (n_q en) (frames_mark (n_frames en))) (content l)).
+Proof.
+  intros l [q fs] ch nf Hl [[Htf Hlim] Hp] Hs Hld. cbn [n_q n_frames] in *.
+  unfold show_frames in Hs. rewrite Hlim in Hs.
+  set (m := frames_mark fs) in *.
+  set (fbs := map (show_filter q m) (sources (Some (fst m)) (delta_query q m) l)) in *.
+  destruct (valid_order fbs (map fst ch)) eqn:V; [|discriminate]. inversion Hs; subst nf; clear Hs.
+  assert (Hd : Permutation (concat (frames_of fbs (map fst ch))) (filter (above q m) (content l))).
+  { eapply perm_trans; [apply valid_order_perm; exact V|]. unfold fbs, m.
+    rewrite delta_rows; [apply Permutation_refl|exact Htf|apply Hl]. }
+  split; [|split; [|exact Hd]].
+  - unfold show_output, wm_enabled. rewrite Htf.
+    eapply perm_trans; [|apply Permutation_sym; apply (sel_split q m l)].
+    apply Permutation_app; assumption.
+  - split; [split; assumption|]. cbn [n_q n_frames]. rewrite concat_app.
+    destruct (frames_of fbs (map fst ch)) as [|f0 r0] eqn:Enf.
+    + rewrite !app_nil_r. exact Hp.
+    + rewrite <- Enf in *. assert (Hne : frames_of fbs (map fst ch) <> []) by (rewrite Enf; discriminate).
+      rewrite frames_mark_app by exact Hne.
+      set (nf := frames_of fbs (map fst ch)) in *. set (m' := frames_mark nf).
+      assert (Hld' : last_dominates nf = true).
+      { unfold nf in *. rewrite Enf in Hld. cbn [nonempty andb] in Hld. apply negb_false_iff in Hld.
+        rewrite <- Enf in Hld. exact Hld. }
+      unfold last_dominates in Hld'. rewrite forallb_forall in Hld'. fold m' in Hld'.
+      (* the mark moved up *)
+      assert (Hup : mlt m m' = true).
+      { assert (Hin : In (last nf []) nf) by (apply last_In; exact Hne).
+        pose proof (valid_order_nonempty _ _ _ V Hin) as Hfne.
+        destruct (last nf []) as [|r rr] eqn:El; [contradiction|].
+        assert (Hr : In r (concat nf)) by (apply in_concat; exists (r :: rr); split; [exact Hin|left; reflexivity]).
+        assert (Ha : above q m r = true).
+        { eapply Permutation_in in Hr; [|exact Hd]. apply filter_In in Hr. apply Hr. }
+        unfold above in Ha. apply andb_true_iff in Ha. destruct Ha as [_ Ha].
+        eapply mlt_mle_trans; [exact Ha|].
+        unfold m'. rewrite (frames_mark_last nf Hne), El.
+        apply frame_mark_ge. left. reflexivity. }
+      eapply perm_trans; [apply Permutation_app; [exact Hp|exact Hd]|].
+      eapply perm_trans; [apply Permutation_sym; apply (sel_split q m l)|].
+      unfold sel. apply Permutation_refl'. apply filter_ext_in. intros e He.
+      unfold below. destruct (matches q e) eqn:M; [|reflexivity]. cbn [andb]. symmetry.
+      destruct (mlt m (ekey e)) eqn:A.
+      * apply Hld'. eapply Permutation_in; [apply Permutation_sym; exact Hd|].
+        apply filter_In. split; [exact He|]. unfold above. rewrite M, A. reflexivity.
+      * eapply mle_trans; [|apply mlt_mle; exact Hup]. unfold mle. rewrite A. reflexivity.
+Qed.
+
+Lemma inv_show : forall st name ch, Inv st -> good_op st (OShow name ch) -> Inv (fst (step st (OShow name ch))).
+Proof.
+  intros st name ch [Hl Hen] [Hc _]. cbn [classes_of step] in *.
+  destruct (lookup name (st_entries st)) as [en|] eqn:Lk; [|split; assumption].
+  destruct (show_frames (n_q en) (n_frames en) (st_layout st) ch) as [nf|] eqn:S; [|split; assumption].
+  assert (Hld : nonempty nf && negb (last_dominates nf) = false).
+  { destruct (nonempty nf && negb (last_dominates nf)); [discriminate|reflexivity]. }
+  destruct (show_step _ _ _ _ Hl (Hen _ _ Lk) S Hld) as [_ [Hinv _]].
+  cbn [fst st_layout st_entries]. split; [exact Hl|].
+  intros n en' Hlk. cbn [st_entries st_layout] in Hlk |- *. rewrite lookup_update in Hlk. destruct (n =? name) eqn:E.
+  - rewrite Lk in Hlk. inversion Hlk; subst. exact Hinv.
+  - apply Hen with n. exact Hlk.
+Qed.
+
+Lemma step_inv : forall st o, Inv st -> good_op st o -> Inv (fst (step st o)).
+Proof.
+  intros st [l|name q ch|name ch] Hi Hg.
+  - apply inv_setlayout; assumption.
+  - apply inv_remember; assumption.
+  - apply inv_show; assumption.
+Qed.
+
+Lemma inv_init : Inv init.
+Proof.
+  split; [repeat split|intros name en H; discriminate].
+Qed.
+
+Lemma reach_inv : forall st, reach st -> Inv st.
+Proof. intros st H. induction H; [apply inv_init|apply step_inv; assumption]. Qed.
